@@ -306,7 +306,7 @@ func runCheck(prop string, o checkOpts) *checkResult {
 		// differential validation of the verifier's own semantics on this property's functions
 		agree, mism, skip, details := conformRun(P, prop, "", 6, 2)
 		res.extra["semantics_conformance"] = map[string]interface{}{
-			"what":          "per reachable return path of every abstraction-free function under contract: the scalars the symbolic execution predicts on a solver-chosen, pseudo-randomised input, compared with the real code run on the same input",
+			"what":           "per reachable return path of every abstraction-free function under contract: the scalars the symbolic execution predicts on a solver-chosen, pseudo-randomised input, compared with the real code run on the same input",
 			"paths_compared": agree + mism, "agree": agree, "mismatch": mism, "skipped": skip, "mismatches": details,
 		}
 		res.say(o.quiet, "  semantics conformance: %d return paths compared with the real code, %d agree, %d mismatch, %d skipped", agree+mism, agree, mism, skip)
